@@ -8,8 +8,10 @@ use crate::mc::Limits;
 
 pub fn model(tier: Tier, world: &str) -> Hist {
     let (w, s0) = world_by_name(if world.is_empty() { "A" } else { world });
-    let roots = standard_roots(&w, &s0, false);
+    let mut roots = standard_roots(&w, &s0, false);
+    roots.extend(tokenless_roots(&w, &s0));
     let mut alpha = Alphabet::standard(vec![0, 1], vec![0, 1]);
+    alpha.tokenless = true;
     alpha.collect = false;
     alpha.transfer = true;
     alpha.close_account = true;
@@ -47,7 +49,7 @@ pub fn run(tier: Tier) -> Outcome {
         "every action sequence up to the depth bound over the user/liquidator/admin alphabet incl. transfer-account, close-balance, close-account, bankruptcy, close-bank; after every committed transaction, for every bank: delta(total shares) == sum over all accounts of delta(position shares), bit-exact in raw I80F48, except on steps that deactivate a slot where the abandoned remainder must be in [0, 0.0001) units; globally totals >= sum(positions) >= 0 within the counted dust budget",
         vec![
             "environment model E1 (svm-lite) stands in for the Solana runtime".into(),
-            "purge_deleverage_balance is exercised in the C12 deleverage model (it needs a bank in tokenless-repayment mode)".into(),
+            "banks in token-less repayment mode (roots RT / RTC / RTD) are reached through configure_bank, a deleverage-bracketed repay-all by the risk admin and force_tokenless_repay_complete".into(),
         ],
         &[],
     )
